@@ -71,7 +71,7 @@ SlotHost(s) == IF s = LOGIN THEN "login" ELSE IF s <= MaxB THEN NodeHost(s) ELSE
 Idle == [kind |-> "none", pc |-> "idle", pid |-> 0, b |-> 0,
          lcfg |-> <<>>, wcfg |-> <<>>, ljs |-> <<>>, act |-> {}, todo |-> {}, got |-> <<>>, pending |-> <<>>,
          newly |-> {}, canc |-> <<>>, gi |-> 0, avail |-> <<>>, subm |-> <<>>, blkd |-> {}, lbidx |-> 0,
-         done |-> FALSE, exc |-> "",
+         done |-> FALSE, exc |-> "", rc |-> 0,
          queue |-> <<>>, outst |-> <<>>, nrem |-> <<>>, depth |-> 0]
 
 RowOk(j, b) == <<j, ToString(S.rc[j]), "finished", "0.0", "0.0", ToString(b)>>
@@ -259,7 +259,7 @@ NextGroup(s) ==
   /\ UNCHANGED <<S, cfg, js, marker, bfile, hs, nodeFile, processed, jp, npid, nuser, ended, nfault>>
 
 \* one iteration of `while not queue.is_full() and available_jobs:` -- _make_batch, files, sbatch
-SubmitBatch(s) ==
+SubmitBatchX(s, fail) ==
   /\ P(s).pc = "batch"
   /\ LET p == P(s)
          g == GroupRec(p.gi)
@@ -279,40 +279,23 @@ SubmitBatch(s) ==
                          /\ UNCHANGED <<bfile, hs, nfault>>
                     ELSE /\ b \in B          \* the model is bounded to MaxB batches
                          /\ bfile' = [bfile EXCEPT ![b] = [jobs |-> r.batch, hb |-> hb]]
-                         /\ hs' = [hs EXCEPT ![b] = "pending"]
-                         /\ UNCHANGED nfault
+                         \* sbatch fails on all 7 attempts: the batch is not outstanding, its jobs are still recorded as
+                         \* submitted (AsyncHpcSubmitter.run returns ERROR; "TODO: cancel or fail all jobs in the batch")
+                         /\ hs' = [hs EXCEPT ![b] = IF fail THEN "failed" ELSE "pending"]
+                         /\ nfault' = IF fail THEN nfault + 1 ELSE nfault
                          /\ Set(s, [p EXCEPT !.avail = r.rest, !.blkd = @ \cup r.blocked, !.subm = @ \o r.batch,
-                                             !.lbidx = b + 1, !.act = @ \cup {b}])
-                         /\ Feed(<<"SubmitBatch", s, 1>>, << [e |-> "cfgbatch", b |-> b, rewrite |-> (bfile[b] # NoFile), jobs |-> r.batch, hb |-> hb,
-                                      rows |-> rowsNow],
-                                    [e |-> "sbatch", ok |-> TRUE, b |-> b, active |-> Active(hs) + 1, jobs |-> r.batch,
-                                      hb |-> hb, rows |-> rowsNow, opts |-> g.opts, run |-> g.run] >>)
+                                             !.lbidx = b + 1, !.act = IF fail THEN @ ELSE @ \cup {b}])
+                         /\ LET cb == [e |-> "cfgbatch", b |-> b, rewrite |-> (bfile[b] # NoFile), jobs |-> r.batch, hb |-> hb,
+                                       rows |-> rowsNow]
+                                sbe == [e |-> "sbatch", ok |-> ~fail, b |-> b, active |-> IF fail THEN Active(hs) ELSE Active(hs) + 1,
+                                        jobs |-> r.batch, hb |-> hb, rows |-> rowsNow, opts |-> g.opts, run |-> g.run]
+                            IN Feed(<<IF fail THEN "SubmitBatchFail" ELSE "SubmitBatch", s, IF fail THEN b ELSE 1>>,
+                                    IF fail THEN <<cb, sbe, sbe, sbe, sbe, sbe, sbe, sbe>> ELSE <<cb, sbe>>)
   /\ UNCHANGED <<S, cfg, js, marker, nodeFile, processed, jp, npid, nuser, ended>>
 
-\* the same iteration when sbatch fails on all 7 attempts: the batch is not outstanding, its jobs are still recorded as
-\* submitted (AsyncHpcSubmitter.run returns ERROR; "TODO: cancel or fail all jobs in the batch")
-SubmitBatchFail(s) ==
-  /\ P(s).pc = "batch" /\ CanFault("sbatch")
-  /\ LET p == P(s)
-         g == GroupRec(p.gi)
-         PP == [rem |-> p.ljs.rem, est |-> S.est, tb |-> g.tb, tryadd |-> g.tryadd, cap |-> g.cap, size |-> g.size,
-                repaired |-> Repaired]
-     IN /\ ~QueueFull(p) /\ p.avail # <<>>
-        /\ LET r == MakeBatch(PP, p.avail)
-               b == p.lbidx
-               hb == [k \in 1..Len(r.batch) |-> SeqOf(p.ljs.rem[r.batch[k]])]
-               rowsNow == SeqOf(NamesOnDisk(nodeFile, processed))
-               sb == [e |-> "sbatch", ok |-> FALSE, b |-> b, active |-> Active(hs), jobs |-> r.batch,
-                      hb |-> hb, rows |-> rowsNow, opts |-> g.opts, run |-> g.run]
-           IN /\ r.batch # <<>> /\ b \in B
-              /\ nfault' = nfault + 1
-              /\ bfile' = [bfile EXCEPT ![b] = [jobs |-> r.batch, hb |-> hb]]
-              /\ hs' = [hs EXCEPT ![b] = "failed"]
-              /\ Set(s, [p EXCEPT !.avail = r.rest, !.blkd = @ \cup r.blocked, !.subm = @ \o r.batch, !.lbidx = b + 1])
-              /\ Feed(<<"SubmitBatchFail", s, b>>,
-                      <<[e |-> "cfgbatch", b |-> b, rewrite |-> (bfile[b] # NoFile), jobs |-> r.batch, hb |-> hb, rows |-> rowsNow]>>
-                      \o [k \in 1..7 |-> sb])
-  /\ UNCHANGED <<S, cfg, js, marker, nodeFile, processed, jp, npid, nuser, ended>>
+
+SubmitBatch(s) == SubmitBatchX(s, FALSE)
+SubmitBatchFail(s) == CanFault("sbatch") /\ SubmitBatchX(s, TRUE)
 
 \* ---------------------------------------------------------------- R7 persist (Cluster._update_job_status under the lock)
 Persist(s) ==
@@ -368,7 +351,8 @@ Summary(s) ==
          nC == Cardinality({k \in 1..Len(res) : Class(res[k]) = "canceled"})
      IN Feed(<<"Summary", s, 0>>, <<EvRows(nodeFile, processed),
                [e |-> "summary", res |-> res, missing |-> missing, tally |-> <<nS, nF, nC, Len(missing)>>]>>)
-  /\ Set(s, [P(s) EXCEPT !.pc = "markcomplete"])
+  \* _handle_completion returns Status.ERROR (exit code 1) when the number of results differs from the number of jobs
+  /\ Set(s, [P(s) EXCEPT !.pc = "markcomplete", !.rc = IF Len(processed) # Cardinality(J) THEN 1 ELSE 0])
   /\ UNCHANGED <<S, cfg, js, marker, bfile, hs, nodeFile, processed, jp, npid, nuser, ended, nfault>>
 
 MarkComplete(s) ==
@@ -390,7 +374,7 @@ Demote(s) ==
      /\ cfg' = c1
      /\ procs' = Gone(s, procs)
      /\ Feed(<<"Demote", s, 0>>, <<EvStatus(p.pid, c1, js, marker, nodeFile, processed),
-                                   EvExit(p.pid, p.kind, IF p.exc # "" THEN 1 ELSE 0, p.exc)>>)
+                                   EvExit(p.pid, p.kind, IF p.exc # "" THEN 1 ELSE p.rc, p.exc)>>)
   /\ UNCHANGED <<S, js, marker, bfile, hs, nodeFile, processed, jp, npid, nuser, ended, nfault>>
 
 \* the runner's `jade try-submit-jobs` returned: run-jobs exits, the batch leaves the queue
@@ -536,8 +520,9 @@ NodeKill(b) ==
   /\ LET h1 == [hs EXCEPT ![b] = "killed"]
          tryAlive == P(TrySlot(b)).kind # "none"
          bj == ToSet(bfile[b].jobs)
-         evs == (IF tryAlive THEN <<[e |-> IF HoldsRole(TrySlot(b)) THEN "kill" ELSE "nodekill", pid |-> P(TrySlot(b)).pid]>> ELSE <<>>)
-                \o <<[e |-> "nodekill", pid |-> P(RunSlot(b)).pid], [e |-> "hpc", what |-> "kill", b |-> b, active |-> Active(h1)]>>
+         evs == <<[e |-> "nodekill", pid |-> P(RunSlot(b)).pid]>>
+                \o (IF tryAlive THEN <<[e |-> IF HoldsRole(TrySlot(b)) THEN "kill" ELSE "nodekill", pid |-> P(TrySlot(b)).pid]>> ELSE <<>>)
+                \o <<[e |-> "hpc", what |-> "kill", b |-> b, active |-> Active(h1)]>>
      IN /\ hs' = h1
         /\ procs' = [procs EXCEPT ![RunSlot(b)] = Idle, ![TrySlot(b)] = Idle]
         /\ jp' = [j \in J |-> IF j \in bj /\ jp[j] \in {"running", "exited"} THEN "none" ELSE jp[j]]
